@@ -354,3 +354,47 @@ def pairwise_script(desc):
             "persist": pv, "order": list(order), "shapes": {}, "viral": False, "time_period": False, "nrows": {}, "analytic": " over (" in script,
             "dag": True, "pairwise": True}
     return {"script": script, "structures": structures, "data": data, "meta": meta}
+
+
+# ---------------------------------------------------------------- many small components
+
+def generate_components(rng):
+    """Scripts of 9-14 statements made of several small, mutually disconnected components over a few shared inputs
+    (roots of different components read the same input; textual order interleaved): the shape in which the order
+    chosen for *independent* statements - and whatever is keyed by statement position - matters."""
+    from .gen import csv_text
+
+    n_inputs = rng.choice([2, 3])
+    inputs = ["DS_%d" % (i + 1) for i in range(n_inputs)]
+    comps_n = rng.choice([3, 4, 5])
+    stmts, edges = [], []
+    idx = 0
+    for c in range(comps_n):
+        size = rng.choice([1, 2, 3, 4])
+        local = []
+        for j in range(size):
+            idx += 1
+            name = "R_%d" % idx
+            a = rng.choice(local) if local and rng.random() < 0.7 else rng.choice(inputs)
+            b = rng.choice(local + inputs) if rng.random() < 0.5 else None
+            op = rng.choice(["+", "-", "*"])
+            expr = ("%s %s %s" % (a, op, b)) if b else rng.choice(["%s * 2", "%s + 1", "%s[filter Me_1 > 1]", "%s[calc Me_1 := Me_1 * 3]"]) % a
+            stmts.append({"name": name, "op": "<-" if rng.random() < 0.4 else ":=", "expr": expr, "shape": "S"})
+            for x in (a, b):
+                if x:
+                    edges.append((x, name, "direct"))
+            local.append(name)
+    if not any(s["op"] == "<-" for s in stmts):
+        stmts[-1]["op"] = "<-"
+    written = list(stmts)
+    rng.shuffle(written)
+    script = "\n".join("%s %s %s;" % (s["name"], s["op"], s["expr"]) for s in written) + "\n"
+    data = {}
+    for i, n in enumerate(inputs):
+        rs = _rows(rng, rng.choice([2, 3, 4]))
+        data[n] = {"kind": "df", "columns": COLS, "rows": rs}
+    meta = {"n_inputs": n_inputs, "n_statements": len(stmts), "inputs_used": inputs, "edges": sorted((p, c) for (p, c, _k) in edges),
+            "edge_kinds": ["direct"], "reader_profiles": [], "persist": "".join("P" if s["op"] == "<-" else "n" for s in written),
+            "order": [s["name"] for s in written], "shapes": {}, "viral": False, "time_period": False, "nrows": {}, "analytic": False,
+            "dag": True, "components": comps_n}
+    return {"script": script, "structures": {"datasets": [{"name": n, "DataStructure": COMPS} for n in inputs]}, "data": data, "meta": meta}
